@@ -54,11 +54,34 @@ def call_usage(tree: ast.AST):
         {(callee simple name, keyword): [(enclosing function simple name or None, ("lit", text) | ("name", id) | ("other", None))]}) over one module"""
     kws, npos, vals = set(), {}, {}
 
+    def _dict_defs(fn):
+        """locals of fn bound exactly once to a dict literal with constant string keys, or to a conditional expression of such literals"""
+        cnt, out = {}, {}
+        for n in ast.walk(fn):
+            if isinstance(n, ast.Name) and isinstance(n.ctx, (ast.Store, ast.Del)):
+                cnt[n.id] = cnt.get(n.id, 0) + 1
+        for n in ast.walk(fn):
+            if isinstance(n, ast.Assign) and len(n.targets) == 1 and isinstance(n.targets[0], ast.Name) and cnt.get(n.targets[0].id) == 1:
+                leaves, stack, good = [], [n.value], True
+                while stack:
+                    e = stack.pop()
+                    if isinstance(e, ast.IfExp):
+                        stack += [e.body, e.orelse]
+                    elif isinstance(e, ast.Dict) and all(isinstance(k, ast.Constant) and isinstance(k.value, str) for k in e.keys):
+                        leaves.append(e)
+                    else:
+                        good = False
+                if good and leaves:
+                    out[n.targets[0].id] = leaves
+        return out
+    dict_defs = {}
+
     def visit(node, encl):
         for ch in ast.iter_child_nodes(node):
             e2 = encl
             if isinstance(ch, (ast.FunctionDef, ast.AsyncFunctionDef)):
                 e2 = ch.name
+                dict_defs[ch.name] = _dict_defs(ch)
             elif isinstance(ch, ast.ClassDef):
                 e2 = encl
             if isinstance(ch, ast.Call):
@@ -76,6 +99,18 @@ def call_usage(tree: ast.AST):
                             else:
                                 d = ("other", None)
                             vals.setdefault((nm, k.arg), []).append((encl, d))
+                        elif isinstance(k.value, ast.Name) and k.value.id in dict_defs.get(encl, {}):
+                            # f(.., **opts) with `opts = {} if .. else {"p": v}`: the keywords it can carry are visible
+                            for leaf in dict_defs[encl][k.value.id]:
+                                for kk, vv in zip(leaf.keys, leaf.values):
+                                    kws.add((nm, kk.value))
+                                    if _is_literal(vv):
+                                        d = ("lit", ast.unparse(vv))
+                                    elif isinstance(vv, ast.Name):
+                                        d = ("name", vv.id)
+                                    else:
+                                        d = ("other", None)
+                                    vals.setdefault((nm, kk.value), []).append((encl, d))
                         else:
                             kws.add((nm, "**"))
                     n = len(ch.args) + (100 if any(isinstance(a, ast.Starred) for a in ch.args) else 0)
